@@ -45,3 +45,78 @@ func ParseDuration(s string) (Duration, error) { return real.ParseDuration(s) }
 func Date(y int, m Month, d, h, mi, s, ns int, l *Location) Time {
 	return real.Date(y, m, d, h, mi, s, ns, l)
 }
+
+// --- timers: channels fed from scheduler context ------------------------------
+
+type Timer struct {
+	C    <-chan Time
+	c    chan Time
+	dead *bool
+	fn   func()
+}
+
+func NewTimer(d Duration) *Timer {
+	t := &Timer{c: make(chan Time, 1)}
+	t.C = t.c
+	s := simrt.S
+	t.dead = s.AfterNS(int64(d), func() { simrt.InjectSend(s, t.c, Now0(s)) })
+	return t
+}
+
+func Now0(s *simrt.Sim) Time { return real.Unix(0, s.Cfg.Epoch+s.SimTimeNS()).UTC() }
+
+func (t *Timer) Stop() bool {
+	was := !*t.dead
+	*t.dead = true
+	return was
+}
+
+func (t *Timer) Reset(d Duration) bool {
+	was := t.Stop()
+	s := simrt.S
+	if t.fn != nil {
+		f := t.fn
+		t.dead = s.AfterNS(int64(d), func() { s.SpawnFromTimer("time.AfterFunc", f) })
+	} else {
+		t.dead = s.AfterNS(int64(d), func() { simrt.InjectSend(s, t.c, Now0(s)) })
+	}
+	return was
+}
+
+func After(d Duration) <-chan Time { return NewTimer(d).C }
+
+func AfterFunc(d Duration, f func()) *Timer {
+	t := &Timer{fn: f}
+	s := simrt.S
+	t.dead = s.AfterNS(int64(d), func() { s.SpawnFromTimer("time.AfterFunc", f) })
+	return t
+}
+
+type Ticker struct {
+	C    <-chan Time
+	c    chan Time
+	dead *bool
+}
+
+func NewTicker(d Duration) *Ticker {
+	t := &Ticker{c: make(chan Time, 1)}
+	t.C = t.c
+	s := simrt.S
+	stopped := new(bool)
+	t.dead = stopped
+	var arm func()
+	arm = func() {
+		s.AfterNS(int64(d), func() {
+			if *stopped {
+				return
+			}
+			simrt.InjectSend(s, t.c, Now0(s))
+			arm()
+		})
+	}
+	arm()
+	return t
+}
+
+func (t *Ticker) Stop()           { *t.dead = true }
+func Tick(d Duration) <-chan Time { return NewTicker(d).C }
